@@ -38,7 +38,8 @@ def mutate_mid_run(rng, scn, files_by_url):
 def gen_case(rng):
     scn = P.gen_scenario(rng)
     case = {"seed": rng.getrandbits(32), "prior": rng.random() < 0.6, "switch": rng.random() < 0.15,
-            "local_fault": rng.choice([None, None, None, rng.randint(1, 120)])}
+            "local_fault": rng.choice([None, None, None, rng.randint(1, 120)]),
+            "path_fault": rng.random() < 0.25}
     return scn, case
 
 
@@ -57,7 +58,20 @@ def run_case(rep, scn, case, sb: Path, tag):
     files2 = R.files_of(scn2)
     served = mutate_mid_run(rng, scn2, files2) if case["switch"] else files2
     plan = R.gen_fault_plan(rng, scn2, served)
-    res = R.run_observed(scn2, base, plan=plan, files_by_url=served, local_fault=case["local_fault"])
+    path_fault = None
+    if case.get("path_fault"):
+        # a local I/O error on ONE pool file while other pool files are under ignore_errors
+        for r in scn2.repos:
+            pool = sorted(p for p in served[r["url"]] if p.startswith("pool/"))
+            if len(pool) >= 2:
+                victim = rng.choice(pool)
+                others = sorted({"/".join(p.split("/")[:4]) for p in pool if "/".join(p.split("/")[:4]) != "/".join(victim.split("/")[:4])})
+                if others:
+                    r["config"]["ignore_errors"] = rng.sample(others, min(len(others), rng.randint(1, 3)))
+                    path_fault = victim
+                    break
+    res = R.run_observed(scn2, base, plan=plan, files_by_url=served,
+                         local_fault=None if path_fault else case["local_fault"], path_fault=path_fault)
     kinds = sorted({k for pl in plan.values() for sc in pl.values() for k in sc["first"] + [sc["rest"]] if k != "good"})
     rep.case(("run", res.code, tuple(kinds), bool(res.fault_hit), case["switch"], len(scn.repos), case["prior"]),
              sample={"exit": res.code, "results": res.results, "fault_kinds": kinds, "local_fault": res.fault_hit,
